@@ -171,6 +171,15 @@ def gen_cases(tier):
                             continue
                         cases.append({"tool": "format_converter", "target": target, "files": [list(k) for k in seq],
                                       "place": place, "r": "s" in place, "out": out})
+                        if "s" in place:
+                            # recursion off with a filled sub-directory: what lies there is out of scope
+                            cases.append({"tool": "format_converter", "target": target, "files": [list(k) for k in seq],
+                                          "place": place, "r": False, "out": out})
+                if n == 1:
+                    # an explicit output directory inside the input directory, recursion off
+                    for seq in itertools.product(core, repeat=n):
+                        cases.append({"tool": "format_converter", "target": target, "files": [list(k) for k in seq],
+                                      "place": "t", "r": False, "out": "explicit-inside-input"})
     return cases
 
 
@@ -213,6 +222,9 @@ def _run(case, scratch):
     indir = os.path.join(root, "input")
     work = os.path.join(root, "work")
     outx = os.path.join(root, "explicit_out")
+    inside = case["out"] == "explicit-inside-input"
+    if inside:
+        outx = os.path.join(indir, "out")
     os.makedirs(os.path.join(indir, "sub"))
     os.makedirs(work)
     os.makedirs(outx)
@@ -242,7 +254,8 @@ def _run(case, scratch):
             odml_to_rdf.main(args)
         else:
             from odml.tools.converters.format_converter import FormatConverter
-            FormatConverter.convert_dir(indir, outx if case["out"] == "explicit" else None, bool(case["r"]), case["target"])
+            FormatConverter.convert_dir(indir, outx if case["out"].startswith("explicit") else None, bool(case["r"]),
+                                        case["target"])
     except env.Timeout:
         raise
     except BaseException as exc:
@@ -256,10 +269,12 @@ def _run(case, scratch):
     for k, h in before.items():
         if k.startswith("input" + os.sep) and after.get(k, "<gone>") != h:
             fail("input-file-changed-or-removed", k)
-    new_in_input = sorted(k for k in after if k.startswith("input" + os.sep) and k not in before)
+    new_in_input = sorted(k for k in after if k.startswith("input" + os.sep) and k not in before and
+                          not (inside and k.startswith(os.path.join("input", "out") + os.sep)))
     if new_in_input:
         fail("something-written-into-the-input-directory", new_in_input[:3])
-    if after.get(os.path.join("explicit_out", "already_here.txt")) != before[os.path.join("explicit_out", "already_here.txt")]:
+    marker = os.path.relpath(os.path.join(outx, "already_here.txt"), root)
+    if after.get(marker) != before[marker]:
         fail("existing-file-in-the-output-directory-changed", None)
     # 2. everything created lies in a new directory at the right place
     created = sorted(k for k in after if k not in before)
@@ -269,7 +284,9 @@ def _run(case, scratch):
         if k.endswith("/"):
             continue
         inside_new = any(k.startswith(d) for d in new_dirs)
-        if tool == "format_converter" and case["out"] == "explicit":
+        if tool == "format_converter" and inside:
+            ok = k.startswith(os.path.join("input", "out") + os.sep) and os.sep not in k[len(os.path.join("input", "out")) + 1:]
+        elif tool == "format_converter" and case["out"] == "explicit":
             ok = k.startswith("explicit_out" + os.sep)
         elif tool == "format_converter":
             ok = inside_new and k.startswith("input_" + case["target"] + os.sep)
@@ -332,6 +349,11 @@ def _run(case, scratch):
             if got != want:
                 fail("output-content-differs-from-its-source", snapshot.short(snapshot.diff(want, got)), f["kind"], f["ext"])
     else:
+        for f in files:
+            if not f["seen"]:
+                mine = [o for o in outputs if os.path.basename(o).startswith(f["base"] + ".")]
+                if mine:
+                    fail("file-outside-the-search-scope-was-converted", mine[:2], f["kind"], f["ext"])
         target = case["target"]
         right_kind = {"v1_1": "v10-xml", "odml": "v11-xml"}.get(target, "v11-xml")
         all_right = all(f["kind"] == right_kind for f in files if f["seen"])
